@@ -1,5 +1,7 @@
 /-
-Model of tiny-std/src/env.rs `var` / `var_unix` (C07).  Imports only Model/Start.lean (itself import-free).
+Model of tiny-std/src/env.rs `var` / `var_unix` and of the argument iterators `ArgsOs` / `Args` as stateful
+objects (every `Iterator` / `ExactSizeIterator` method a program can call on them) (C07).  Imports only
+Model/Start.lean (itself import-free).
 
 An environment entry is the byte list before its terminating NUL, as `UnixStr::from_ptr` reads it from the
 block `resolve` located (`Start.envWalk`).  `matchUpTo` / `matchUpToStr` mirror
